@@ -420,6 +420,19 @@ def rule_lists(ctx):
     if not ok_iter:
         r.violation(ctx.key(rc, "C02-LISTS", "iteration"), rc.loc,
                     "reset_contraction_indices does not iterate all nodes unconditionally")
+    else:
+        # ... and on every path: no early return in front of the loop
+        fl = ctx.flow(rc)
+        loops = [fl.cfg.node_of(n) for n in walk_local(rc.node) if isinstance(n, ast.For)
+                 and dotted(n.iter) in ("self.children", "self.info")]
+        loops = [x.id for x in loops if x is not None]
+        if loops and not fl.cfg.all_paths_pass(fl.cfg.entry.id, loops):
+            pth = fl.cfg.path_avoiding(fl.cfg.entry.id, loops)
+            r.violation(ctx.key(rc, "C02-LISTS", "iteration"), rc.loc,
+                        "reset_contraction_indices can return without walking the nodes: the "
+                        "per-node index orders are cached independently of whatever the skipped "
+                        "path tests, so stale recipes survive a restructuring",
+                        path=fl.cfg.describe_path(pth) if pth else "")
     return r
 
 
@@ -784,6 +797,57 @@ def rule_corekey(ctx):
     return r
 
 
+def rule_topo(ctx):
+    """Executing a tree (and ``get_path``) in a caller-supplied order relies on
+    ``traverse(order)`` producing children before parents.  In the ordered traversal a
+    child is inserted by score, *bounded by its parent's current position*."""
+    r = RuleResult("C02-TOPO", "ordered traversal keeps children before parents", 1)
+    tc = tree_class(ctx)
+    f = tc.lookup("_traverse_ordered")
+    C.require(f is not None, "_traverse_ordered not found")
+    key = ctx.key(f, "C02-TOPO")
+    calls = [n for n in walk_local(f.node) if isinstance(n, ast.Call)
+             and (dotted(n.func) or "").split(".")[-1] in ("bisect", "bisect_right", "bisect_left")]
+    if not calls:
+        r.exempt(key, f.loc, "the traversal no longer inserts by bisection: a different algorithm, "
+                 "not decided by this rule")
+        return r
+    for c in calls:
+        bounded = False
+        if c.args and isinstance(c.args[0], ast.Subscript) and isinstance(c.args[0].slice, ast.Slice) \
+                and c.args[0].slice.upper is not None:
+            bounded = True                                    # bisect(scores[:i], s)
+        if len(c.args) >= 4 or any(k.arg == "hi" for k in c.keywords):
+            bounded = True                                    # bisect(scores, s, lo, hi)
+        par = f.module.parents.get(c)
+        if isinstance(par, ast.Call) and dotted(par.func) == "min":
+            bounded = True                                    # min(i, bisect(scores, s))
+        if bounded:
+            r.ok(key, C.loc(f, c), "insertion position bounded by the parent's position")
+        else:
+            r.violation(key, C.loc(f, c), f"`{C.unparse(c)}` searches the whole queue: a child that "
+                        "scores above its parent is queued after it, and the contraction list asks "
+                        "for an intermediate that does not exist yet")
+    return r
+
+
+def rule_multpair(ctx):
+    """Shared with C06-MULT: un-slicing restores the slice count that slicing recorded."""
+    from .c06 import rule_multpair as src
+
+    return C.reuse_rule(ctx, src, "C06-MULT", "C02-MULTPAIR",
+                        "slice-count factor recorded on removal is the one removed on restore",
+                        lambda i: True, 2)
+
+
+def rule_rebuild(ctx):
+    """Shared with C04-REBUILD."""
+    from .c04 import rule_rebuild as src
+
+    return C.reuse_rule(ctx, src, "C04-REBUILD", "C02-REBUILD",
+                        "nodes are rebuilt bottom-up", lambda i: True, 1)
+
+
 # ---- NODE ------------------------------------------------------------------
 
 
@@ -1107,5 +1171,6 @@ def rule_copy(ctx):
                         lambda i: True, 20)
 
 
-RULES = [rule_keys, rule_deps, rule_lists, rule_closure, rule_root, rule_cores, rule_corekey, rule_node,
+RULES = [rule_keys, rule_deps, rule_lists, rule_closure, rule_root, rule_cores, rule_corekey, rule_topo,
+         rule_multpair, rule_rebuild, rule_node,
          rule_presurv, rule_pure, rule_copy, rule_preproc]
